@@ -17,6 +17,10 @@ pub(crate) use core::sync::atomic::*;
 #[cfg(feature = "loom")]
 pub(crate) use loom::sync::atomic::*;
 
+// an explicit import shadows the glob import above
+#[cfg(all(feature = "verif", not(feature = "loom")))]
+pub(crate) use crate::verif::{AtomicU32, AtomicU64, AtomicUsize};
+
 pub(crate) trait UnsafeCellExt<T> {
   fn as_inner_ptr(&self) -> *const T;
   fn as_inner_mut(&self) -> *mut T;
